@@ -18,22 +18,37 @@ def run(ctx):
     def canon_note(n):
         return [int(n.scale_degree), 1 if n.is_sharp else 0, n.octave]
 
-    # ---- byte converters, all 256 values, both implementations -------------------------
-    rel = [("fast_akai_to_ascii_byte", lambda b: AS._fast_akai_to_ascii_byte(b)),
-           ("convert_byte_to_akai", lambda b: AS._char_format_convert_byte(b, CharFormat.ASCII, CharFormat.AKAI)),
-           ("convert_byte_to_ascii", lambda b: AS._char_format_convert_byte(b, CharFormat.AKAI, CharFormat.ASCII))]
-    for name, f in rel:
-        mod = M.call_batch(name, bytes_)
-        for b, mv in zip(bytes_, mod):
-            iv = M.impl_res(f, b)
-            ctx.count(name, b)
-            ctx.agree(name, b, iv, M.res(mv))
+    # ---- byte converters, all 256 values, through the public string functions (one-character strings); the
+    # ---- private per-byte helpers are compared as well while they exist under their present names -----------
+    def dec1(b):
+        return ord(AS.char_akai_to_ascii(bytes([b])))
+
+    def enc1(a):
+        r = AS.char_ascii_to_akai(bytes([a]))
+        assert len(r) == 1, r
+        return r[0]
+    rel = [("fast_akai_to_ascii_byte", dec1, "akai->ascii (public, 1 char)"), ("convert_byte_to_akai", enc1, "ascii->akai (public, 1 char)")]
+    priv_dec = getattr(AS, "_fast_akai_to_ascii_byte", None)
+    priv_conv = getattr(AS, "_char_format_convert_byte", None)
+    if priv_dec is not None:
+        rel.append(("fast_akai_to_ascii_byte", priv_dec, "private fast decoder"))
+    if priv_conv is not None:
+        rel.append(("convert_byte_to_akai", lambda b: priv_conv(b, CharFormat.ASCII, CharFormat.AKAI), "private generic converter"))
+        rel.append(("convert_byte_to_ascii", lambda b: priv_conv(b, CharFormat.AKAI, CharFormat.ASCII), "private generic converter"))
+    # two passes in alternating order: the codecs must not depend on which direction was used first / last in the process
+    for rnd in (0, 1):
+        for name, f, how in (rel if rnd == 0 else list(reversed(rel))):
+            mod = M.call_batch(name, bytes_)
+            for b, mv in zip(bytes_, mod):
+                iv = M.impl_res(f, b)
+                ctx.count(name, (b, how))
+                ctx.agree(name, {"byte": b, "via": how, "pass": rnd}, iv, M.res(mv))
     # property oracle on the implementation: bijection on 41 codes, everything else rejected
     images = {}
     for b in bytes_:
-        r = M.impl_res(AS._fast_akai_to_ascii_byte, b)
+        r = M.impl_res(dec1, b)
         if b <= 0x28:
-            ok = r[0] == "ok" and M.impl_res(AS._char_format_convert_byte, r[1], CharFormat.ASCII, CharFormat.AKAI) == ("ok", b)
+            ok = r[0] == "ok" and M.impl_res(enc1, r[1]) == ("ok", b)
             ctx.require("akai->ascii->akai is identity on valid code", {"byte": b}, ok, r)
             if r[0] == "ok":
                 images[r[1]] = b
@@ -41,11 +56,17 @@ def run(ctx):
             ctx.require("invalid AKAI code rejected", {"byte": b}, r == ("err", "InvalidCharacter"), r)
     ctx.require("41 distinct images", {}, len(images) == 41, len(images))
     for a in bytes_:
-        r = M.impl_res(AS._char_format_convert_byte, a, CharFormat.ASCII, CharFormat.AKAI)
+        r = M.impl_res(enc1, a)
         if a in images:
             ctx.require("ascii->akai inverts", {"ascii": a}, r == ("ok", images[a]), r)
         else:
             ctx.require("ascii outside the 41 images rejected", {"ascii": a}, r == ("err", "InvalidCharacter"), r)
+    # the construct adapters used by every name field: parse(build(s)) == s through AkaiPaddedString
+    pad = AS.AkaiPaddedString(12)
+    for txt in ["", "A", "KICK 1", "A#+-. Z9", "ZZZZZZZZZZZZ", " LEAD", "0.5-1+2#3"]:
+        r = M.impl_res(lambda t: pad.parse(pad.build(t)), txt)
+        ctx.count("padded_string", txt)
+        ctx.require("name field build->parse returns the name (trailing blanks aside)", {"text": txt}, r[0] == "ok" and r[1].rstrip(" ") == txt.rstrip(" "), r)
 
     # ---- strings -------------------------------------------------------------------------
     n_str = 300 if ctx.quick else 5000
